@@ -84,7 +84,7 @@ var errInjectedRead = errors.New("injected read error")
 func srvDatagram(v6 bool, k SrvDgKind, serial int) ([]byte, net.Addr) {
 	var from net.Addr = &net.UDPAddr{IP: net.IPv4(10, 0, 0, 7), Port: 68}
 	if v6 {
-		from = &net.UDPAddr{IP: net.ParseIP("fe80::7"), Port: 546}
+		from = &net.UDPAddr{IP: net.ParseIP("fe80::7"), Port: 546, Zone: "eth1"} // link-local senders carry a zone; it is part of the peer
 	}
 	switch k {
 	case SdGarbage:
